@@ -20,6 +20,8 @@ listed in the JSON table under `known_holes` and re-reported by every run as KNO
 `adj` is the complete table.
 -/
 
+set_option maxRecDepth 8000
+
 namespace Multi.C16
 open Multi.Gen.ConstTable
 
